@@ -20,6 +20,6 @@ def run(chk, replay=None):
                        "distinct = distinct projected traces; non-trivial = at least two context switches among owned events")
     chk.prove()
     k1.run_unit(chk, stop_source.StopSource())
-    for mode in ("fused", "adapter"):
+    for mode in ("fused", "adapter", "adapter_dm"):
         k1.run_unit(chk, stop_source.TwoSourceInner(mode))
         k1.run_unit(chk, stop_source.TwoSourceUp(mode))
